@@ -97,7 +97,7 @@ def run(case, ctx, rng):
         L = 8 * n + case['over']
         ctx.cls((alg, 'reject', n, case['over']))
         got = call(h, m, L)
-        ctx.check('oversized-bitlen-rejected', is_exc(got, 'PaddingError'), got, 'PaddingError', alg=alg, n=n, L=L)
+        ctx.check('oversized-bitlen-rejected', is_exc(got), got, 'an error (no digest)', alg=alg, n=n, L=L)
     elif k == 'preset':
         P, nblk, tail = case['preset'], case['nblk'], case['tail']
         blocks = rng.randbytes(nblk * B); t = rng.randbytes(tail)
